@@ -221,6 +221,41 @@ def check(ctx):
     # ... and the layer underneath answers "no slot" at once: no container / pool operation waits for a slot to come back (shared with C20 R20.6)
     importlib.import_module("props.C20").check_container_no_wait(ctx, "R16.2")
     ctx.floor("R16.2", 60)
+    # ------------------------------------------------------------------ R16.5 a refused reservation answers, it does not panic
+    # between the fullness test saying "no room" and the give-up answer (reservation receded / lock released, `None`) no explicit panic or assertion is reachable: an
+    # assertion about the refused state (e.g. "refused, so `tail - head >= BUFFER_SIZE`" -- wrong while reservations are in flight) turns a full buffer into a panic in
+    # the builds that keep it, and -- sitting before the recede -- leaves the reservation counter advanced.  (Overflow / bounds Assert terminators are C15's business.)
+    PANICS = ("core::panicking::", "std::rt::begin_panic", "core::panicking::assert_failed", "std::rt::panic_fmt")
+    n5 = 0
+    for adt in (R.AM, R.FSM):
+        k5 = f"{adt}::leak_slot_internal"
+        f5 = fx.fn_opt(k5)
+        if f5 is None: continue
+        b5 = Body(f5); d5 = D.Dag(b5)
+        for gb in sorted(b5.reachable, key=lambda x_: (len(b5.dom[x_]), x_)):
+            c5 = D.cmp_of_switch(b5, d5, gb)
+            if not c5 or any(t_ not in b5.can_return for t_ in (c5[3], c5[4])): continue
+            cb5 = D.canon_branch(c5)
+            if not cb5 or cb5[0] != "lt" or strip_casts(cb5[2]) != ("gconst", "BUFFER_SIZE"): continue
+            reject = cb5[4]
+            hdrs = frozenset(h for h, bl in b5.loops.items() if gb in bl)
+            region = (b5.reach_from(reject, avoid=hdrs) | {reject}) - {cb5[3]}
+            bad = [x for x in sorted(region) if b5.term(x)[0] == "Call" and (b5.term(x)[1].get("f") or "").startswith(PANICS)]
+            n5 += 1
+            ctx.ob("R16.5", f"{k5}|refusal-does-not-panic", not bad, b5.loc(bad[0]) if bad else b5.loc(gb),
+                   "no explicit panic / assertion between the 'no room' answer of the fullness test and the give-up answer" if not bad else
+                   "an assertion / panic is reachable on the refused path (before the give-up answer): a full buffer panics instead of handing the input back")
+            break
+    ctx.floor("R16.5", 2)
+    # ------------------------------------------------------------------ R16.6 'retrying after room was made succeeds': a released payload's slot goes back to the pool
+    # (dealloc_id re-enqueues the id exactly once on every path, whatever the payload type -- shared with C13 R13.1)
+    C13 = importlib.import_module("props.C13")
+    class OnlyDeallocId(util.PrefixedCtx):
+        def ob(self, rule, key, ok, site="", detail="", nontrivial=True, undecided=False):
+            if rule == "R13.1" and "dealloc_id" in key: return super().ob(rule, key, ok, site, detail, nontrivial, undecided)
+            return ok
+    C13.check(OnlyDeallocId(ctx, "R16.6"))
+    ctx.floor("R16.6", 2)
     # ------------------------------------------------------------------ R16.3 exact capacity
     C02 = importlib.import_module("props.C02")
     class OnlyGuards(util.PrefixedCtx):
